@@ -75,7 +75,7 @@ def scenarios(tier):
 def run(tier, seed):
     rng = random.Random(seed)
     mc = filecheck.design_check()
-    n = 400 if tier == "quick" else 6000
+    n = 400 if tier == "quick" else 3000
     execs = []
     i = 0
     for cfg, fmt in [("cfg/File_sim_ok.cfg", 1), ("cfg/File_sim_ok5.cfg", 5), ("cfg/File_sim_ok2.cfg", 2)]:
